@@ -317,7 +317,7 @@ func callerEqOriginEdges(fn *ssa.Function) (eq, ne []Edge) {
 }
 
 var readOnlyKeeperMethods = map[string]bool{
-	"BondDenom": true, "GetDelegatorValidators": true, "HasChannel": true, "GetAuthorization": true, "GetDelegation": true,
+	"BondDenom": true, "MaxValidators": true, "GetDelegatorValidators": true, "HasChannel": true, "GetAuthorization": true, "GetDelegation": true,
 	"GetValidator": true, "Validator": true, "GetParams": true, "Logger": true, "GetAllValidators": true, "IterateValidators": true,
 	"GetDelegatorWithdrawAddr": true, "GetChannel": true, "GetDenomTrace": true, "GetAuthorizations": true, "GetBalance": true,
 	"GetAllBalances": true, "GetSupply": true, "IterateAccountBalances": true, "IterateTotalSupply": true, "GetTokenPairID": true, "GetTokenPair": true,
